@@ -10,4 +10,5 @@ func rulesC03(c *Ctx, r *Report) {
 	rulesFlags(c, r)
 	rulesSamCodec(c, r)
 	rulesNoBufferedPkg(c, r, "formats/sam")
+	rulesNumWidth(c, r, "formats/sam")
 }
